@@ -42,7 +42,7 @@ theorem headOK_mk (k : HK) (ph : Ph) (hph : ph ≠ .load0) (ℓ : Nat) (q : List
   cases k <;> cases ph <;> simp_all [HK.mk]
 
 theorem headOK_mk_load0 (k : HK) (ℓ : Nat) (q : List Grp) (j : Nat) (b : Agent)
-    (hb : b.loc = k.mk .load0) : HeadOK W P s ℓ q j b ↔ (if k = .relSIX ∨ k = .upg then E2 q j else j = 0) := by
+    (hb : b.loc = k.mk .load0) : HeadOK W P s ℓ q j b ↔ (if k = .relSIX ∨ k = .upg then E2 s q j else j = 0) := by
   cases k <;> simp [HeadOK, hb, HK.mk, PhOK]
 
 theorem abs_mk (k : HK) (ph ph' : Ph) (b b' : Agent) (hb : b.loc = k.mk ph) (hb' : b'.loc = k.mk ph')
@@ -99,21 +99,21 @@ theorem case_hk_lockLoad (hW : WordSpecs P.C pb cb W) (hI : Inv W P pb cb s Q) (
     Inv W P pb cb (setAgent s i (tailAgent P a (lockW s a.lk) k.mk)) Q := by
   have hwf := hI.wf a (List.mem_of_getElem? hi)
   have hL := hI.locks a.lk hwf.2.1
-  obtain ⟨j0, G0, hj0, hh0, hn0, hho⟩ := head_group (W := W) hI hi (by rw [hloc, HK.headMode]; rfl)
+  have hlive0 : a.loc.headMode.isSome := by rw [hloc, HK.headMode]; rfl
+  obtain ⟨j0, G0, hj0, hh0, hn0, hho⟩ := head_group (W := W) hI hi hlive0
   have hphne : ph ≠ .load0 := by rcases hph with h | h <;> simp [h]
   rw [headOK_mk k ph hphne _ _ _ _ hloc] at hho
   unfold tailAgent
   rw [tailLoop_eq]
-  refine inv_k0 hI i a _ hi ?_ ?_ hwf.1 ?_ ?_ ?_ ?_
+  refine inv_k0 hI i a _ hi ?_ ?_ ?_ hwf.1 ?_ ?_ ?_ ?_
   · exact abs_mk k ph _ a _ hloc rfl rfl rfl
+  · intro h; rw [hloc] at h; cases k <;> simp [HK.mk] at h
   · simp [hloc, HK.priv]
   · exact HK.ne_idle _ _
   · exact ⟨fun h => ((HK.ne_priv k _).1 h).elim, fun m h => ((HK.ne_priv k _).2 m h).elim⟩
   · intro h; simp [HK.sMem] at h
   · intro _ j G hj hh
-    obtain ⟨rfl, rfl⟩ := idx_unique hL.nodup hj hj0 (by
-      obtain ⟨b, hb, _, hb2, _, _⟩ := hL.heads j G i hj hh
-      rw [hi] at hb; cases hb; rw [← hb2, hn0])
+    obtain ⟨rfl, rfl⟩ := head_unique hI hi hlive0 hj hh hj0 hh0
     rw [headOK_mk k _ (by split <;> simp) _ _ _ _ rfl]
     exact ⟨hho.1, phOK_tail hW hI hwf.2.1 hj hn0 _ rfl rfl⟩
 
@@ -122,22 +122,22 @@ theorem case_hk_spinNext (hW : WordSpecs P.C pb cb W) (hI : Inv W P pb cb s Q) (
     Inv W P pb cb (setAgent s i (nextAgent a (nodeW s a.qnode &&& P.C.kPtrMask) k.mk)) Q := by
   have hwf := hI.wf a (List.mem_of_getElem? hi)
   have hL := hI.locks a.lk hwf.2.1
-  obtain ⟨j0, G0, hj0, hh0, hn0, hho⟩ := head_group (W := W) hI hi (by rw [hloc, HK.headMode]; rfl)
+  have hlive0 : a.loc.headMode.isSome := by rw [hloc, HK.headMode]; rfl
+  obtain ⟨j0, G0, hj0, hh0, hn0, hho⟩ := head_group (W := W) hI hi hlive0
   rw [headOK_mk k .spinNext (by simp) _ _ _ _ hloc] at hho
   have hlocEq : (if (nodeW s a.qnode &&& P.C.kPtrMask) ≠ 0 then k.mk .handoff else k.mk .spinNext) =
       k.mk (if (nodeW s a.qnode &&& P.C.kPtrMask) ≠ 0 then .handoff else .spinNext) := by split <;> rfl
   unfold nextAgent
   rw [hlocEq]
-  refine inv_k0 hI i a _ hi ?_ ?_ hwf.1 ?_ ?_ ?_ ?_
+  refine inv_k0 hI i a _ hi ?_ ?_ ?_ hwf.1 ?_ ?_ ?_ ?_
   · exact abs_mk k .spinNext _ a _ hloc rfl rfl rfl
+  · intro h; rw [hloc] at h; cases k <;> simp [HK.mk] at h
   · simp [hloc, HK.priv]
   · exact HK.ne_idle _ _
   · exact ⟨fun h => ((HK.ne_priv k _).1 h).elim, fun m h => ((HK.ne_priv k _).2 m h).elim⟩
   · intro h; simp [HK.sMem] at h
   · intro _ j G hj hh
-    obtain ⟨rfl, rfl⟩ := idx_unique hL.nodup hj hj0 (by
-      obtain ⟨b, hb, _, hb2, _, _⟩ := hL.heads j G i hj hh
-      rw [hi] at hb; cases hb; rw [← hb2, hn0])
+    obtain ⟨rfl, rfl⟩ := head_unique hI hi hlive0 hj hh hj0 hh0
     rw [headOK_mk k _ (by split <;> simp) _ _ _ _ rfl]
     refine ⟨hho.1, ?_⟩
     split
@@ -166,7 +166,8 @@ theorem case_hk_load0_pass (hW : WordSpecs P.C pb cb W) (hI : Inv W P pb cb s Q)
   have hwf := hI.wf a (List.mem_of_getElem? hi)
   have hL := hI.locks a.lk hwf.2.1
   have hwfm : ∀ b ∈ s.agents, b.loc.headMode ≠ some .S := fun b hb => (hI.wf b hb).2.2.2
-  obtain ⟨j0, G0, hj0, hh0, hn0, hho⟩ := head_group (W := W) hI hi (by rw [hloc, HK.headMode]; rfl)
+  have hlive0 : a.loc.headMode.isSome := by rw [hloc, HK.headMode]; rfl
+  obtain ⟨j0, G0, hj0, hh0, hn0, hho⟩ := head_group (W := W) hI hi hlive0
   rw [headOK_mk_load0 k _ _ _ _ hloc] at hho
   have hnp : a.loc.isPub = false := by rw [hloc, HK.isPub]
   -- the group is the first one
@@ -203,16 +204,15 @@ theorem case_hk_load0_pass (hW : WordSpecs P.C pb cb W) (hI : Inv W P pb cb s Q)
       k.mk (if nodeW s a.qnode = 0 then .lockLoad else .handoff) := by split <;> rfl
   unfold load0Agent
   rw [hlocEq]
-  refine inv_k0 hI i a _ hi ?_ ?_ hwf.1 ?_ ?_ ?_ ?_
+  refine inv_k0 hI i a _ hi ?_ ?_ ?_ hwf.1 ?_ ?_ ?_ ?_
   · exact abs_mk k .load0 _ a _ hloc rfl rfl rfl
+  · intro h; rw [hloc] at h; cases k <;> simp [HK.mk] at h
   · simp [hloc, HK.priv]
   · exact HK.ne_idle _ _
   · exact ⟨fun h => ((HK.ne_priv k _).1 h).elim, fun m h => ((HK.ne_priv k _).2 m h).elim⟩
   · intro h; simp [HK.sMem] at h
   · intro _ j G hj hh
-    obtain ⟨rfl, rfl⟩ := idx_unique hL.nodup hj hj0 (by
-      obtain ⟨b, hb, _, hb2, _, _⟩ := hL.heads j G i hj hh
-      rw [hi] at hb; cases hb; rw [← hb2, hn0])
+    obtain ⟨rfl, rfl⟩ := head_unique hI hi hlive0 hj hh hj0 hh0
     rw [headOK_mk k _ (by split <;> simp) _ _ _ _ rfl]
     refine ⟨rfl, ?_⟩
     split
@@ -230,15 +230,14 @@ theorem case_hk_load0_wait (hI : Inv W P pb cb s Q) (hi : s.agents[i]? = some a)
     Inv W P pb cb (setAgent s i { a with nxt := v }) Q := by
   have hwf := hI.wf a (List.mem_of_getElem? hi)
   have hL := hI.locks a.lk hwf.2.1
-  obtain ⟨j0, G0, hj0, hh0, hn0, hho⟩ := head_group (W := W) hI hi (by rw [hloc, HK.headMode]; rfl)
+  have hlive0 : a.loc.headMode.isSome := by rw [hloc, HK.headMode]; rfl
+  obtain ⟨j0, G0, hj0, hh0, hn0, hho⟩ := head_group (W := W) hI hi hlive0
   rw [headOK_mk_load0 k _ _ _ _ hloc] at hho
-  apply inv_k0 hI i a { a with nxt := v } hi rfl rfl hwf.1 hwf.2.2.1
+  apply inv_k0 hI i a { a with nxt := v } hi rfl (fun h => h) rfl hwf.1 hwf.2.2.1
   · exact hI.privW i a hi
   · intro h; simp [hloc, HK.sMem] at h
   · intro _ j G hj hh
-    obtain ⟨rfl, rfl⟩ := idx_unique hL.nodup hj hj0 (by
-      obtain ⟨b, hb, _, hb2, _, _⟩ := hL.heads j G i hj hh
-      rw [hi] at hb; cases hb; rw [← hb2, hn0])
+    obtain ⟨rfl, rfl⟩ := head_unique hI hi hlive0 hj hh hj0 hh0
     rw [headOK_mk_load0 k _ _ _ { a with nxt := v } hloc]; exact hho
 
 /-- DowngradeToSIX starts with the link field only -/
@@ -251,7 +250,8 @@ theorem case_dng_load0 (hW : WordSpecs P.C pb cb W) (hI : Inv W P pb cb s Q) (hi
   have hwf := hI.wf a (List.mem_of_getElem? hi)
   have hL := hI.locks a.lk hwf.2.1
   have hloc' : a.loc = HK.dng.mk .load0 := hloc
-  obtain ⟨j0, G0, hj0, hh0, hn0, hho⟩ := head_group (W := W) hI hi (by rw [hloc]; rfl)
+  have hlive0 : a.loc.headMode.isSome := by rw [hloc]; rfl
+  obtain ⟨j0, G0, hj0, hh0, hn0, hho⟩ := head_group (W := W) hI hi hlive0
   rw [headOK_mk_load0 .dng _ _ _ _ hloc'] at hho
   simp only [reduceCtorEq, or_self, ↓reduceIte] at hho
   subst hho
@@ -259,17 +259,16 @@ theorem case_dng_load0 (hW : WordSpecs P.C pb cb W) (hI : Inv W P pb cb s Q) (hi
       HK.dng.mk (if (nodeW s a.qnode &&& P.C.kPtrMask) = 0 then .lockLoad else .handoff) := by split <;> rfl
   unfold dngAgent
   rw [hlocEq]
-  refine inv_k0 hI i a _ hi ?_ ?_ hwf.1 ?_ ?_ ?_ ?_
+  refine inv_k0 hI i a _ hi ?_ ?_ ?_ hwf.1 ?_ ?_ ?_ ?_
   · exact abs_mk .dng .load0 _ a _ hloc' rfl rfl rfl
+  · intro h; simp [hloc] at h
   · show (HK.dng.mk _).priv = a.loc.priv
     rw [HK.priv, hloc]; rfl
   · exact HK.ne_idle .dng _
   · exact ⟨fun h => ((HK.ne_priv .dng _).1 h).elim, fun m h => ((HK.ne_priv .dng _).2 m h).elim⟩
   · intro h; simp [HK.sMem] at h
   · intro _ j G hj hh
-    obtain ⟨rfl, rfl⟩ := idx_unique hL.nodup hj hj0 (by
-      obtain ⟨b, hb, _, hb2, _, _⟩ := hL.heads j G i hj hh
-      rw [hi] at hb; cases hb; rw [← hb2, hn0])
+    obtain ⟨rfl, rfl⟩ := head_unique hI hi hlive0 hj hh hj0 hh0
     rw [headOK_mk .dng _ (by split <;> simp) _ _ _ _ rfl]
     refine ⟨rfl, ?_⟩
     split
@@ -294,14 +293,15 @@ theorem case_relS_load0 (hW : WordSpecs P.C pb cb W) (hI : Inv W P pb cb s Q) (h
   have hlocEq : (if (nodeW s a.qnode &&& P.C.kPtrMask) = 0 then Loc.rel .S .lockLoad else Loc.rel .S .handoff) =
       Loc.rel .S (if (nodeW s a.qnode &&& P.C.kPtrMask) = 0 then .lockLoad else .handoff) := by split <;> rfl
   rw [hlocEq]
-  refine inv_k0 hI i a _ hi ?_ ?_ hwf.1 ?_ ?_ ?_ ?_
+  refine inv_k0 hI i a _ hi ?_ ?_ ?_ hwf.1 ?_ ?_ ?_ ?_
   · exact abs_relS .load0 _ a _ hloc rfl rfl rfl
+  · intro h; simp [hloc] at h
   · simp [hloc, Loc.priv]
   · simp
   · exact ⟨by intro h; simp at h, by intro m hm; simp at hm⟩
   · intro _ j G hj hn
     obtain ⟨rfl, rfl⟩ := idx_unique hL.nodup hj hj0 (by rw [hn, hn0])
-    show G.head = none ∧ PhOK P s (Q a.lk) j _ _
+    show hmode s G = none ∧ PhOK P s (Q a.lk) j _ _
     refine ⟨hmo.1, ?_⟩
     split
     · trivial
@@ -318,14 +318,15 @@ theorem case_relS_lockLoad (hW : WordSpecs P.C pb cb W) (hI : Inv W P pb cb s Q)
   simp only [MemOK, hloc] at hmo
   unfold tailAgent
   rw [tailLoop_eq]
-  refine inv_k0 hI i a _ hi ?_ ?_ hwf.1 ?_ ?_ ?_ ?_
+  refine inv_k0 hI i a _ hi ?_ ?_ ?_ hwf.1 ?_ ?_ ?_ ?_
   · exact abs_relS ph _ a _ hloc rfl rfl rfl
+  · intro h; simp [hloc] at h
   · simp [hloc, Loc.priv]
   · simp
   · exact ⟨by intro h; simp at h, by intro m hm; simp at hm⟩
   · intro _ j G hj hn
     obtain ⟨rfl, rfl⟩ := idx_unique hL.nodup hj hj0 (by rw [hn, hn0])
-    show G.head = none ∧ PhOK P s (Q a.lk) j _ _
+    show hmode s G = none ∧ PhOK P s (Q a.lk) j _ _
     exact ⟨hmo.1, phOK_tail hW hI hwf.2.1 hj hn0 _ rfl rfl⟩
   · intro h; simp [Loc.headMode] at h
 
@@ -340,14 +341,15 @@ theorem case_relS_spinNext (hW : WordSpecs P.C pb cb W) (hI : Inv W P pb cb s Q)
       Loc.rel .S (if (nodeW s a.qnode &&& P.C.kPtrMask) ≠ 0 then .handoff else .spinNext) := by split <;> rfl
   unfold nextAgent
   rw [hlocEq]
-  refine inv_k0 hI i a _ hi ?_ ?_ hwf.1 ?_ ?_ ?_ ?_
+  refine inv_k0 hI i a _ hi ?_ ?_ ?_ hwf.1 ?_ ?_ ?_ ?_
   · exact abs_relS .spinNext _ a _ hloc rfl rfl rfl
+  · intro h; simp [hloc] at h
   · simp [hloc, Loc.priv]
   · simp
   · exact ⟨by intro h; simp at h, by intro m hm; simp at hm⟩
   · intro _ j G hj hn
     obtain ⟨rfl, rfl⟩ := idx_unique hL.nodup hj hj0 (by rw [hn, hn0])
-    show G.head = none ∧ PhOK P s (Q a.lk) j _ _
+    show hmode s G = none ∧ PhOK P s (Q a.lk) j _ _
     refine ⟨hmo.1, ?_⟩
     split
     · rename_i hne
@@ -373,8 +375,9 @@ theorem case_beginRelease (hI : Inv W P pb cb s Q) (i tid : Nat) (htid : tid < s
       | S =>
         obtain ⟨j0, G0, hj0, hn0, hmo⟩ := member_group hI hi (by simp [hloc, Loc.sMem])
         simp only [MemOK, hloc] at hmo
-        refine inv_k0 hI i a _ hi ?_ ?_ htid ?_ ?_ ?_ ?_
+        refine inv_k0 hI i a _ hi ?_ ?_ ?_ htid ?_ ?_ ?_ ?_
         · simp [Agent.abs, hloc, Loc.headMode, Loc.sMem, Loc.isPub, Loc.isLink]
+        · intro h; simp [hloc] at h
         · simp [hloc, Loc.priv]
         · simp
         · exact ⟨by intro h; simp at h, by intro m hm; simp at hm⟩
@@ -383,32 +386,32 @@ theorem case_beginRelease (hI : Inv W P pb cb s Q) (i tid : Nat) (htid : tid < s
           exact ⟨hmo, trivial⟩
         · intro h; simp [Loc.headMode] at h
       | SIX =>
-        obtain ⟨j0, G0, hj0, hh0, hn0, hho⟩ := head_group (W := W) hI hi (by simp [hloc, Loc.headMode])
+        have hlive0 : a.loc.headMode.isSome := by simp [hloc, Loc.headMode]
+        obtain ⟨j0, G0, hj0, hh0, hn0, hho⟩ := head_group (W := W) hI hi hlive0
         simp only [HeadOK, hloc] at hho
-        refine inv_k0 hI i a _ hi ?_ ?_ htid ?_ ?_ ?_ ?_
+        refine inv_k0 hI i a _ hi ?_ ?_ ?_ htid ?_ ?_ ?_ ?_
         · simp [Agent.abs, hloc, Loc.headMode, Loc.sMem, Loc.isPub, Loc.isLink]
+        · intro h; simp [hloc] at h
         · simp [hloc, Loc.priv]
         · simp
         · exact ⟨by intro h; simp at h, by intro m hm; simp at hm⟩
         · intro h; simp [Loc.sMem] at h
         · intro _ j G hj hh
-          obtain ⟨rfl, rfl⟩ := idx_unique hL.nodup hj hj0 (by
-            obtain ⟨b, hb, _, hb2, _, _⟩ := hL.heads j G i hj hh
-            rw [hi] at hb; cases hb; rw [← hb2, hn0])
+          obtain ⟨rfl, rfl⟩ := head_unique hI hi hlive0 hj hh hj0 hh0
           exact hho
       | X =>
-        obtain ⟨j0, G0, hj0, hh0, hn0, hho⟩ := head_group (W := W) hI hi (by simp [hloc, Loc.headMode])
+        have hlive0 : a.loc.headMode.isSome := by simp [hloc, Loc.headMode]
+        obtain ⟨j0, G0, hj0, hh0, hn0, hho⟩ := head_group (W := W) hI hi hlive0
         simp only [HeadOK, hloc] at hho
-        refine inv_k0 hI i a _ hi ?_ ?_ htid ?_ ?_ ?_ ?_
+        refine inv_k0 hI i a _ hi ?_ ?_ ?_ htid ?_ ?_ ?_ ?_
         · simp [Agent.abs, hloc, Loc.headMode, Loc.sMem, Loc.isPub, Loc.isLink]
+        · intro h; simp [hloc] at h
         · simp [hloc, Loc.priv]
         · simp
         · exact ⟨by intro h; simp at h, by intro m hm; simp at hm⟩
         · intro h; simp [Loc.sMem] at h
         · intro _ j G hj hh
-          obtain ⟨rfl, rfl⟩ := idx_unique hL.nodup hj hj0 (by
-            obtain ⟨b, hb, _, hb2, _, _⟩ := hL.heads j G i hj hh
-            rw [hi] at hb; cases hb; rw [← hb2, hn0])
+          obtain ⟨rfl, rfl⟩ := head_unique hI hi hlive0 hj hh hj0 hh0
           exact ⟨hho, trivial⟩
     | _ => exact hI
 
@@ -423,18 +426,18 @@ theorem case_beginUpgrade (hI : Inv W P pb cb s Q) (i tid : Nat) (htid : tid < s
     · rename_i hloc
       have hwf := hI.wf a (List.mem_of_getElem? hi)
       have hL := hI.locks a.lk hwf.2.1
-      obtain ⟨j0, G0, hj0, hh0, hn0, hho⟩ := head_group (W := W) hI hi (by simp [hloc, Loc.headMode])
+      have hlive0 : a.loc.headMode.isSome := by simp [hloc, Loc.headMode]
+      obtain ⟨j0, G0, hj0, hh0, hn0, hho⟩ := head_group (W := W) hI hi hlive0
       simp only [HeadOK, hloc] at hho
-      refine inv_k0 hI i a _ hi ?_ ?_ htid ?_ ?_ ?_ ?_
+      refine inv_k0 hI i a _ hi ?_ ?_ ?_ htid ?_ ?_ ?_ ?_
       · simp [Agent.abs, hloc, Loc.headMode, Loc.sMem, Loc.isPub, Loc.isLink]
+      · intro h; simp [hloc] at h
       · simp [hloc, Loc.priv]
       · simp
       · exact ⟨by intro h; simp at h, by intro m hm; simp at hm⟩
       · intro h; simp [Loc.sMem] at h
       · intro _ j G hj hh
-        obtain ⟨rfl, rfl⟩ := idx_unique hL.nodup hj hj0 (by
-          obtain ⟨b, hb, _, hb2, _, _⟩ := hL.heads j G i hj hh
-          rw [hi] at hb; cases hb; rw [← hb2, hn0])
+        obtain ⟨rfl, rfl⟩ := head_unique hI hi hlive0 hj hh hj0 hh0
         exact hho
     · exact hI
 
@@ -449,18 +452,18 @@ theorem case_beginDowngrade (hI : Inv W P pb cb s Q) (i tid : Nat) (htid : tid <
     · rename_i hloc
       have hwf := hI.wf a (List.mem_of_getElem? hi)
       have hL := hI.locks a.lk hwf.2.1
-      obtain ⟨j0, G0, hj0, hh0, hn0, hho⟩ := head_group (W := W) hI hi (by simp [hloc, Loc.headMode])
+      have hlive0 : a.loc.headMode.isSome := by simp [hloc, Loc.headMode]
+      obtain ⟨j0, G0, hj0, hh0, hn0, hho⟩ := head_group (W := W) hI hi hlive0
       simp only [HeadOK, hloc] at hho
-      refine inv_k0 hI i a _ hi ?_ ?_ htid ?_ ?_ ?_ ?_
+      refine inv_k0 hI i a _ hi ?_ ?_ ?_ htid ?_ ?_ ?_ ?_
       · simp [Agent.abs, hloc, Loc.headMode, Loc.sMem, Loc.isPub, Loc.isLink]
+      · intro h; simp [hloc] at h
       · simp [hloc, Loc.priv]
       · simp
       · exact ⟨by intro h; simp at h, by intro m hm; simp at hm⟩
       · intro h; simp [Loc.sMem] at h
       · intro _ j G hj hh
-        obtain ⟨rfl, rfl⟩ := idx_unique hL.nodup hj hj0 (by
-          obtain ⟨b, hb, _, hb2, _, _⟩ := hL.heads j G i hj hh
-          rw [hi] at hb; cases hb; rw [← hb2, hn0])
+        obtain ⟨rfl, rfl⟩ := head_unique hI hi hlive0 hj hh hj0 hh0
         exact ⟨hho, trivial⟩
     · exact hI
 
